@@ -390,8 +390,10 @@ def build():
         def f(ctx):
             n = ctx.choice("number", [1, 2, 3])
             conn, ex, epr, subs, sid = _mk(ctx, sock_id=4)
-            creator = role == "create"
-            if creator:
+            creator = role in ("create", "create_rsp")
+            if role == "create_rsp":
+                results = ctx.call(epr.create_rsp, number=n)       # the creator of a remote state preparation measures its halves: M-type results
+            elif creator:
                 results = ctx.call(epr.create_measure, number=n)
             else:
                 results = ctx.call(epr.recv_measure, number=n, expect_phi_plus=False)
@@ -416,6 +418,7 @@ def build():
         return f
     R.add("results[create_measure]", kind="lia", samples=30, max_paths=8000)(mk_measure_results("create"))
     R.add("results[recv_measure]", kind="lia", samples=30, max_paths=8000)(mk_measure_results("recv"))
+    R.add("results[create_rsp]", kind="lia", samples=30, max_paths=8000)(mk_measure_results("create_rsp"))
     R.add("results[create_measure, responses in qlink-interface 1.0 format]", kind="lia", samples=30, max_paths=8000)(mk_measure_results("create", "1.0"))
     R.add("results[recv_measure, responses in qlink-interface 1.0 format]", kind="lia", samples=30, max_paths=8000)(mk_measure_results("recv", "1.0"))
 
